@@ -186,6 +186,7 @@ def run_pairs(block, tier, acc):
 def run_period_case(case):
     kind, n, pos, fault = case['span'], case['n'], case['pos'], case['fault']
     kw = dict(max_iter=3, tol=scripted.TOL, errors=case['errors'], failures='ignore')
+    kw.update(case.get('extra') or {})
     a, labels = build(kind, n, pos, fault)
     b, _ = build(kind, n, pos, fault)
     ra = refsolve.call_outcome(a.solve_period, labels[pos], **kw)[:2]
@@ -203,8 +204,9 @@ def run_period(acc, tier):
     for kind in spans.SPAN_TYPES:
         for pos in range(n):
             for fault in FAULTS:
-                for errors in ('raise', 'skip'):
-                    case = dict(kind='period', span=kind, n=n, pos=pos, fault=fault, errors=errors)
+                for errors, extra in (('raise', None), ('skip', None), ('raise', {'catch_first_error': False}), ('raise', {'tol': 0.125}),
+                                      ('raise', {'min_iter': 3}), ('raise', {'max_iter': 1}), ('ignore', {'failures': 'raise'}), ('raise', {'offset': -1})):
+                    case = dict(kind='period', span=kind, n=n, pos=pos, fault=fault, errors=errors, extra=extra)
                     acc.evaluations += 1
                     acc.nontrivial += 1
                     acc.traces += 1
@@ -251,6 +253,30 @@ def run_misc_case(case):
                 out.append(('ambiguous-label:%s' % arg, 'KeyError', r[0], 'a label that does not resolve to a single position must raise KeyError'))
             if observe(m) != init:
                 out.append(('ambiguous-label:state:%s' % arg, 'unchanged', 'changed', 'KeyError must come before anything is solved'))
+    elif what == 'short-span':
+        # a non-empty span that is too short for the lags and leads: the default range is empty - solve() visits nothing, like an empty loop
+        for kind in ('range', 'list_str', 'pd_year', 'np_int'):
+            for n in (2,):  # one lag + one lead: with 2 periods both default bounds exist, in reversed order
+                m, labels = build(kind, n, None, 'none')
+                init = observe(m)
+                r = refsolve.call_outcome(m.solve, tol=scripted.TOL)
+                got = (list(r[2][0]), list(r[2][1]), list(r[2][2])) if r[0] == 'value' else r[0]
+                if got != ([], [], []) or observe(m) != init:
+                    out.append(('short-span:default-range', [[], [], []], repr(got)[:120], 'solve() on a %d-period span with one lag and one lead must visit nothing' % n))
+    elif what == 'duplicate-label':
+        # a label that matches several positions of a pandas Index does not resolve to a single position
+        for arg in ('start', 'end', 'period'):
+            span = pd.Index(['a', 'b', 'a', 'c', 'd'])
+            m = scripted.make_scripted(span, {p: list(NORMAL) for p in range(5)}, cls=scripted.Scripted)
+            init = observe(m)
+            if arg == 'period':
+                r = refsolve.call_outcome(m.solve_period, 'a', tol=scripted.TOL)
+            else:
+                r = refsolve.call_outcome(m.solve, tol=scripted.TOL, **{arg: 'a'})
+            if r[0] != 'KeyError':
+                out.append(('duplicate-label:%s' % arg, 'KeyError', r[0], 'a label matching several positions must raise KeyError'))
+            if observe(m) != init:
+                out.append(('duplicate-label:state:%s' % arg, 'unchanged', 'changed', 'KeyError must come before anything is solved'))
     elif what == 'min-gt-max':
         m, labels = build('range', 4, None, 'none')
         init = observe(m)
@@ -333,7 +359,7 @@ def run_block(block, tier, seed):
     elif block['kind'] == 'parser':
         run_parser(acc, tier, block)
     else:
-        for what in ('empty-span', 'ambiguous-year', 'min-gt-max'):
+        for what in ('empty-span', 'ambiguous-year', 'min-gt-max', 'short-span', 'duplicate-label'):
             case = {'kind': 'misc', 'what': what}
             acc.evaluations += 1
             acc.nontrivial += 1
